@@ -124,13 +124,17 @@ PROPS['C12'] = {
     'trusted': _EVAL_TRUSTED, 'assumptions': _EVAL_ASSUME,
 }
 PROPS['C18'] = {
-    'units': ['ops', 'eval'],
-    'functions': {'ops': ['eval_ex', 'eval_ax', 'eval_eg', 'eval_af', 'eval_au', 'eval_ew', 'eval_neg'], 'eval': ['eval_node', 'compute_steady_states', 'is_fixed_point_pattern', 'is_attractor_pattern']},
-    'level_text': ('Proof that eval_node is correct for an ARBITRARY self-loop set on formulae without EX, AX, AF, EG, AU, EW (precondition '
-                   '"steady == steady_set() or loop_insensitive(tree)"), and lemma that the semantics of such formulae does not depend on the '
-                   'self-loop set; on networks without steady states both variants receive the same (empty) set.'),
-    'level_note': 'Same trusted base as C01. The entry point model_check_formula_unsafe_ex itself is not yet under contract. Stage 1 (sharing off).',
-    'explanation': 'lemma_loop_insensitive (induction on the tree) + the parametric contract of eval_node + eval_ex / eval_ax / eval_eg / eval_au specifications that carry the self-loop set explicitly.',
+    'units': ['ops', 'eval', 'api', 'front', 'lex', 'tree'],
+    'functions': {'ops': ['eval_ex', 'eval_ax', 'eval_eg', 'eval_af', 'eval_au', 'eval_ew', 'eval_neg'], 'eval': ['eval_node', 'compute_steady_states', 'is_fixed_point_pattern', 'is_attractor_pattern'],
+                  'api': ['model_check_formula_unsafe_ex', 'parse_and_validate', '_model_check_formula_dirty', 'model_check_formula_dirty', '_model_check_multiple_formulae_dirty'],
+                  'front': [], 'lex': [], 'tree': []},
+    'level_text': ('Proof that model_check_formula_unsafe_ex satisfies the very specification proved for the safe entry point model_check_formula_dirty '
+                   '(Ok(v) => v agrees with the semantics of the preprocessed formula, computed with self-loops on steady states, inside the unit set; Err exactly '
+                   'when the text is rejected) under the precondition of the statement: the network has no steady state, or the accepted formula contains none of '
+                   'EX, AX, AF, EG, AU, EW. Underneath: eval_node is proved correct for an ARBITRARY self-loop set on loop-insensitive formulae, and '
+                   'lemma_loop_insensitive shows that the semantics of such formulae does not depend on the self-loop set.'),
+    'level_note': 'Same trusted base as C01 (contract of mark_duplicates assumed in EvalContext::from_single_tree). Known findings D5 / D8 apply to the shared evaluator.',
+    'explanation': 'contracts/api.ctr: model_check_formula_unsafe_ex; lemma_loop_insensitive (spec/sem_laws.rs); parametric contract of eval_node; eval_ex / eval_ax / eval_eg / eval_au specifications carry the self-loop set explicitly.',
     'trusted': _EVAL_TRUSTED, 'assumptions': _EVAL_ASSUME,
 }
 UNIT_TIMEOUT['eval'] = 1200
